@@ -77,6 +77,13 @@ void useCallbackLists()
 		CL l; l(Payload());
 	}
 	{
+		using P2 = void (Payload);
+		using CL = eventpp::CallbackList<P2, PoliciesCanContinueValue>;
+		std::function<P2> g = [](Payload) {};
+		exerciseCallbackList<CL>(g);
+		CL l; l(Payload()); Payload p; l(p);
+	}
+	{
 		using P3 = void (std::unique_ptr<int> &, const std::string &);
 		using CL = eventpp::CallbackList<P3>;
 		std::function<P3> g = [](std::unique_ptr<int> &, const std::string &) {};
